@@ -328,14 +328,15 @@ def limits_case(draw):
     # a module defining both <p>_limits and <p>_min/_max is not a supported combination (checkLimits looks at the pair only)
     kind = draw(st.sampled_from(['min', 'max', 'minmax', 'limits']))
     ops = []
-    vals = [-50.0, -1.0, 0.0, 0.5, 1.0, 5.0, 10.0, 99.0, 100.0, 101.0]
+    vals = [-50.0, -1.0, 0.0, 0.5, 1.0, 5.0, 10.0, 37.0, 99.0, 100.0, 101.0]
     for _ in range(draw(st.integers(1, 25))):
         what = draw(st.sampled_from(['target', 'target', 'min', 'max', 'limits', 'drv-target']))
         if what == 'limits':
             ops.append({'op': 'limits', 'value': [draw(st.sampled_from(vals)), draw(st.sampled_from(vals))]})
         else:
             ops.append({'op': what, 'value': draw(st.sampled_from(vals))})
-    return {'kind': 'limits', 'limits': kind, 'inherited': draw(st.booleans()), 'ops': ops}
+    layout = draw(st.sampled_from(['same-class', 'limits-in-base', 'limits-in-subclass', 'limits-in-subclass+inherited-hook', 'limits-in-mixin']))
+    return {'kind': 'limits', 'limits': kind, 'inherited': layout == 'limits-in-base', 'layout': layout, 'ops': ops}
 
 
 def check_limits(ctx, case):
@@ -356,11 +357,28 @@ def check_limits(ctx, case):
     def write_target(self, value):
         writes.append(float(value))
         return value
-    if case['inherited']:
+    layout = case.get('layout') or ('limits-in-base' if case.get('inherited') else 'same-class')
+    FORBIDDEN = 37.0     # refused by the user written hook of the base class
+
+    def check_target(self, value):
+        if value == FORBIDDEN:
+            raise RangeError('forbidden value')
+    if layout == 'limits-in-base':
         base = type('LBase', (Writable,), dict(attrs, **lim))
         cls = type('L', (base,), {'write_target': write_target})
+    elif layout == 'limits-in-subclass':
+        base = type('LBase', (Writable,), dict(attrs, write_target=write_target))
+        cls = type('L', (base,), dict(lim))
+    elif layout == 'limits-in-subclass+inherited-hook':
+        base = type('LBase', (Writable,), dict(attrs, write_target=write_target, check_target=check_target))
+        cls = type('L', (base,), dict(lim))
+    elif layout == 'limits-in-mixin':
+        mixin = type('LimMixin', (), dict(lim))
+        base = type('LBase', (Writable,), dict(attrs, write_target=write_target))
+        cls = type('L', (mixin, base), {})
     else:
         cls = type('L', (Writable,), dict(attrs, write_target=write_target, **lim))
+    hook = layout == 'limits-in-subclass+inherited-hook'
     kit = Kit({'l': {'cls': cls, 'description': 'limits module'}})
     if kit.errors:
         ctx.finding('limits:node-refused', case, repr(kit.errors)[:300])
@@ -407,7 +425,7 @@ def check_limits(ctx, case):
                 accepted, err = True, None
             except Exception as e:   # noqa
                 accepted, err = False, type(e).__name__
-        inside = lo <= x <= hi
+        inside = lo <= x <= hi and not (hook and x == FORBIDDEN)
         if accepted and not inside:
             ctx.finding(f'limits:accepted-outside:{kind}', sub, f'target {x} accepted with limits {cur!r}')
             return
@@ -424,7 +442,7 @@ def check_limits(ctx, case):
         ctx.ok('limits-respected')
     if moved:
         ctx.nt(('limits', repr(case)))
-    ctx.label(f'limits:{kind}')
+    ctx.label(f'limits:{kind}', f'limits-layout:{layout}')
     ctx.sample(case, every=97)
 
 
